@@ -16,5 +16,5 @@ ASSUME \A i \in 1..Len(Programs) :
 \* exploration bound: call sequences of at most MaxDepth state-changing calls (queries are self loops and do not count);
 \* TLC's breadth-first level of a state is the length of the shortest call sequence reaching it
 CONSTANT MaxDepth
-Bounded == TLCGet("level") <= MaxDepth
+Bounded == TLCGet("level") <= MaxDepth + 1      \* the initial state has level 1
 =============================================================================
